@@ -54,31 +54,54 @@ theorem names_unique (a b : Module) (ha : UniqueNames a) (hb : UniqueNames b) : 
 /-- C08.2 `b_represented`: (names unique per namespace in A and in B) every node `x` of B in one of the namespaces with
     `calculate_item_actions` (UNIT, COMPU_TAB/VTAB/VTAB_RANGE, COMPU_METHOD, RECORD_LAYOUT, the objects, the typedefs, FRAME,
     TRANSFORMER) has a representative `y` in the result with `x`'s tag and hash, whose name is `rep … x.name`: `x.name` itself
-    or a fresh `x.name.MERGE<k>`; `y` is either
-    * a node of A with `x`'s name which is identical to `x` as it was when compared (`renAll ps x`: `x` after the renames `ps`
-      made by the passes before the comparison), or
-    * an added node (its name is not a name of A's namespace) carrying `x`'s references after all renames. -/
+    or a fresh `x.name.MERGE<k>`; `y` carries `x`'s references after ALL renames (so it is identical to `x` as B's module
+    finally describes it), and it is either a node of A with `x`'s name or an added node whose name is not a name of A's
+    namespace. (With the fixpoint loops of the fixed code the comparison happens after all renames; the old statement —
+    identical to `renAll ps x` for a suffix `ps` of the log — follows with `ps` = the whole log.) -/
 theorem b_represented (a b : Module) (ha : UniqueNames a) (hb : UniqueNames b) (ns : Ns) (hns : ns.std)
     (x : Node) (hx : x ∈ b) (hxt : x.tag ∈ ns.tags) :
     ∃ y ∈ merge a b, y.tag = x.tag ∧ y.hash = x.hash ∧ y.name = rep (mergeSt a b).plans ns x.name ∧
       (y.name = x.name ∨ ∃ k, 1 ≤ k ∧ y.name = mergeName x.name k) ∧
+      y.refs = (renAll (mergeSt a b).plans x).refs ∧
+      ((y ∈ a ∧ y.name = x.name) ∨ y.name ∉ names ns a) := by
+  obtain ⟨sv, h⟩ := minv_mergeSt ha hb
+  exact h.rep ns (std_mem_finalKeys hns) (tags_mem_finalMoved ns) x hx hxt
+
+theorem node_ext {x y : Node} (h1 : x.tag = y.tag) (h2 : x.name = y.name) (h3 : x.hash = y.hash) (h4 : x.refs = y.refs) :
+    x = y := by
+  cases x; cases y; simp_all
+
+/-- the statement of the previous round (before the fix), verbatim: it still holds -/
+theorem b_represented_old_form (a b : Module) (ha : UniqueNames a) (hb : UniqueNames b) (ns : Ns) (hns : ns.std)
+    (x : Node) (hx : x ∈ b) (hxt : x.tag ∈ ns.tags) :
+    ∃ y ∈ merge a b, y.tag = x.tag ∧ y.hash = x.hash ∧ y.name = rep (mergeSt a b).plans ns x.name ∧
+      (y.name = x.name ∨ ∃ k, 1 ≤ k ∧ y.name = mergeName x.name k) ∧
       ((y ∈ a ∧ y.name = x.name ∧ ∃ ps, ps <:+ (mergeSt a b).plans ∧ y = renAll ps x) ∨
-       (y.name ∉ names ns a ∧ y.refs = (renAll (mergeSt a b).plans x).refs)) :=
-  (minv_mergeSt ha hb).rep ns (std_mem_finalKeys hns) (tags_mem_finalMoved ns) x hx hxt
+       (y.name ∉ names ns a ∧ y.refs = (renAll (mergeSt a b).plans x).refs)) := by
+  obtain ⟨y, hy, h1, h2, h3, h4, h5, h6⟩ := b_represented a b ha hb ns hns x hx hxt
+  refine ⟨y, hy, h1, h2, h3, h4, ?_⟩
+  rcases h6 with ⟨h6a, h6b⟩ | h6
+  · exact .inl ⟨h6a, h6b, _, List.suffix_refl _, node_ext h1 h6b h2 h5⟩
+  · exact .inr ⟨h6, h5⟩
 
 /-- FUNCTION and GROUP are merged by name: every FUNCTION / GROUP of B has a node of its kind and name in the result
     (A's node of that name, possibly with more references, or B's node). More generally the own name of every named node of
     B stays defined in its namespace. -/
 theorem b_represented_by_name (a b : Module) (ha : UniqueNames a) (hb : UniqueNames b) (ns : Ns)
-    (x : Node) (hx : x ∈ b) (hxt : x.tag ∈ ns.tags) : ∃ z ∈ merge a b, z.tag ∈ ns.tags ∧ z.name = x.name :=
-  (minv_mergeSt ha hb).own ns (tags_mem_finalMoved ns) x hx hxt
+    (x : Node) (hx : x ∈ b) (hxt : x.tag ∈ ns.tags) : ∃ z ∈ merge a b, z.tag ∈ ns.tags ∧ z.name = x.name := by
+  obtain ⟨sv, h⟩ := minv_mergeSt ha hb
+  exact h.own ns (tags_mem_finalMoved ns) x hx hxt
 
-/-- Without unique names in B the statement is false: of two B-elements with one name only the last decides whether
-    "the name" is added; here the first one (hash `h1`) is lost. -/
+/-- Without unique names in B the statement is false in the namespaces with a single round (here COMPU_METHOD): of two
+    B-elements with one name only the last decides whether "the name" is added; the first one (hash `h1`) is lost.
+    In the namespaces with the loop the forcing step adds it (renamed) — and the second one once more under its old name. -/
 theorem b_represented_counterexample :
-    let a : Module := [⟨"MEASUREMENT", "x", "h2", []⟩]
-    let b : Module := [⟨"MEASUREMENT", "x", "h1", []⟩, ⟨"MEASUREMENT", "x", "h2", []⟩]
-    merge a b = a ∧ ¬ ∃ y ∈ merge a b, y.hash = "h1" := by decide
+    (let a : Module := [⟨"COMPU_METHOD", "x", "h2", []⟩]
+     let b : Module := [⟨"COMPU_METHOD", "x", "h1", []⟩, ⟨"COMPU_METHOD", "x", "h2", []⟩]
+     merge a b = a ∧ ¬ ∃ y ∈ merge a b, y.hash = "h1") ∧
+    (let a : Module := [⟨"MEASUREMENT", "x", "h2", []⟩]
+     let b : Module := [⟨"MEASUREMENT", "x", "h1", []⟩, ⟨"MEASUREMENT", "x", "h2", []⟩]
+     merge a b = a ++ [⟨"MEASUREMENT", "x.MERGE", "h1", []⟩, ⟨"MEASUREMENT", "x", "h2", []⟩]) := by decide
 
 /-- C08.5 `merge_empty_right` -/
 theorem merge_empty_right (a : Module) : merge a [] = a := mergeSt_empty_right a
@@ -119,8 +142,9 @@ theorem merge_empty_left_counterexample :
 
 /-! non-vacuity -/
 
-/-- a conflict in a shared namespace across kinds, with a pre-existing `x.MERGE`: the hypotheses hold and a rename to
-    `x.MERGE2` happens -/
+-- a conflict in a shared namespace across kinds, with a pre-existing `x.MERGE`: the hypotheses hold and a rename to
+-- `x.MERGE2` happens
+set_option maxRecDepth 4000 in
 example :
     let a : Module := [⟨"MEASUREMENT", "x", "h1", []⟩, ⟨"BLOB", "x.MERGE", "h0", []⟩]
     let b : Module := [⟨"CHARACTERISTIC", "x", "h2", []⟩, ⟨"FUNCTION", "f", "h3", [⟨"RefCharacteristic.identifier_list", "x"⟩]⟩]
@@ -128,5 +152,53 @@ example :
     merge a b = a ++ [⟨"CHARACTERISTIC", "x.MERGE2", "h2", []⟩,
                       ⟨"FUNCTION", "f", "h3", [⟨"RefCharacteristic.identifier_list", "x.MERGE2"⟩]⟩] :=
   ⟨uniqueNames_of_check (by decide), uniqueNames_of_check (by decide), by decide⟩
+
+/-! ### the fixpoint loops of `merge_unit`, `merge_objects`, `merge_transformer` -/
+
+/-- `actions_fixpoint_terminates`: with the fuel `Σ |items of B in the namespaces of the loop| + 1` that `planLoop` passes,
+    the loop ends by itself: it makes `k ≤ fuel` rounds (`loopRounds` counts them with the same fuel and does not return
+    `none`), more fuel does not change the result, and the result is a fixpoint — computing the actions once more on the final
+    merge module yields no rename that is not already in the accumulated table. -/
+theorem actions_fixpoint_terminates (a b : Module) (nss : List Ns) (hn : nss.Nodup) :
+    (∃ k, loopRounds a nss (loopFuel nss b) b (fun _ => []) = some k ∧ 1 ≤ k ∧ k ≤ loopFuel nss b) ∧
+    (∀ extra, fixLoop a nss (loopFuel nss b + extra) b (fun _ => []) = fixLoop a nss (loopFuel nss b) b (fun _ => [])) ∧
+    (∀ ns ∈ nss, ∀ k v,
+      (calcActions (nsNodes ns a) (nsNodes ns (fixLoop a nss (loopFuel nss b) b (fun _ => [])).1)).ren.get k = some v →
+      (((fixLoop a nss (loopFuel nss b) b (fun _ => [])).2 ns).ren.get k).isSome = true) := by
+  have hli := li_init a b nss
+  have hfuel := loopMeasure_le_fuel b nss (fun _ => [])
+  refine ⟨?_, ?_, ?_⟩
+  · obtain ⟨k, hk, h1, h2⟩ := loopRounds_spec hn (loopFuel nss b) b (fun _ => []) hli hfuel
+    exact ⟨k, hk, h1, by omega⟩
+  · intro extra
+    exact fixLoop_fuel_irrelevant hn _ _ b _ hli (by omega) hfuel
+  · exact (fixLoop_spec hn (loopFuel nss b) b (fun _ => []) hli hfuel).1.conf
+
+/-- the loops used by `merge_modules`: UNIT; objects + typedefs; TRANSFORMER -/
+theorem actions_fixpoint_terminates_used :
+    [Ns.unit].Nodup ∧ [Ns.object, Ns.typedef].Nodup ∧ [Ns.transformer].Nodup := by decide
+
+/-- `renamed_are_merged`: after the plan step of a loop every name in the rename table has action `true` (the forcing step),
+    so an element whose references were redirected to a new name is merged under that name -/
+theorem renamed_are_merged (nss : List Ns) (hn : nss.Nodup) (st : St) (ns : Ns) (hns : ns ∈ nss) (n : String)
+    (h : (((planLoop nss st).plan ns).ren.get n).isSome = true) : ((planLoop nss st).plan ns).act.get n = some true := by
+  have hs := planLoop_spec nss hn st
+  rw [St.plan_planEntries hs.plans_eq, if_pos hns] at h ⊢
+  rw [hs.act ns hns n, h]; rfl
+
+/-- The forcing step is needed: here A's `u` refers to a (dangling) `v.MERGE`. Round 1 renames B's `u` and `v` (both
+    differ from A's), which turns B's `u` into a twin of A's `u`: the last round (the second) gives `u` the action `false`,
+    although the references to `u` were redirected to `u.MERGE`; the forcing step adds it. (A has a dangling reference
+    here; the loop itself makes 2 rounds.) -/
+theorem renamed_are_merged_needed :
+    let a : Module := [⟨"UNIT", "u", "h", [⟨"RefUnit.unit", "v.MERGE"⟩]⟩, ⟨"UNIT", "v", "h1", []⟩]
+    let b : Module := [⟨"UNIT", "u", "h", [⟨"RefUnit.unit", "v"⟩]⟩, ⟨"UNIT", "v", "h2", []⟩]
+    let res := fixLoop a [.unit] (loopFuel [.unit] b) b (fun _ => [])
+    loopRounds a [.unit] (loopFuel [.unit] b) b (fun _ => []) = some 2 ∧
+    (res.2 .unit).ren.get "u" = some "u.MERGE" ∧
+    (calcActions (nsNodes .unit a) (nsNodes .unit res.1)).act.get "u" = some false ∧
+    (res.2 .unit).act.get "u" = some true ∧
+    merge a b = a ++ [⟨"UNIT", "u.MERGE", "h", [⟨"RefUnit.unit", "v.MERGE"⟩]⟩, ⟨"UNIT", "v.MERGE", "h2", []⟩] :=
+  ⟨by decide, by decide, by decide, by decide, by decide⟩
 
 end A2l.Mg
